@@ -8,6 +8,7 @@ import CattrsModel.Preconf.Driver
 import CattrsModel.FieldConv.Driver
 import CattrsModel.GenHook.Driver
 import CattrsModel.Generics.Driver
+import CattrsModel.Heap.Driver
 open CattrsModel
 
 structure DState where
@@ -24,6 +25,7 @@ def stateless (op : String) (args : List Sexp) : Option Sexp :=
     |>.orElse (fun _ => FieldConv.fieldConvHandle op args)
     |>.orElse (fun _ => GenHook.genHookHandle op args)
     |>.orElse (fun _ => Generics.genericsHandle op args)
+    |>.orElse (fun _ => Heap.heapHandle op args)
 
 def step (st : DState) (line : String) : DState × String :=
   match Sexp.parseLine line with
